@@ -38,7 +38,7 @@ static std::string ascii_only(const std::string &s) { std::string o; for (unsign
 static std::string qe(const std::string &s) { return ascii_only(doc::esc(s)); }
 static std::string qs(const doc::NodeP &n) { return ascii_only(doc::show(n)); }
 
-static const double APPLY_C = 2000.0;        // |S_A - S_B| <= APPLY_C * 10^(1-p): calibrated, see notes/agent-cal.md
+static const double APPLY_C = 100.0;         // |S_A - S_B| <= APPLY_C * 10^(1-p): calibrated, see notes/agent-cal.md
 static const int APPLY_MIN_P = 4;            // below that the perturbation of the terms is not small
 
 static int type_id(const std::string &t) {
